@@ -362,6 +362,8 @@ def _cmp_headers(exp: Expected, view: View, extra_ok: Any, bad: list) -> None:
     got = list(view.headers or [])
     want = list(exp.headers or [])
     if extra_ok is None:
+        if any(n != n.lower() for n, _ in got):  # ASGI: "header names must be lowercased"
+            bad.append(("response-headers", "name-not-lowercased", f"got {got!r}"))
         if [(n.lower(), v) for n, v in got] != want:
             bad.append(("response-headers", "differ", f"got {got!r} want {want!r}"))
         return
